@@ -23,6 +23,10 @@ ASSUMPTIONS = [
     "the analytic identity (Strom's blossom formula = convolution integral) is proved only for order 0 and 1 with a 2-knot kernel; for all other orders/kernels it is TESTED: model@Qc expanded in the new basis == exact piecewise-polynomial integral, on this run's cases",
     "rounding (double divided differences, float storage) is not proved: measured on every run against the exact integral with tolerance 16*sum_d(order_d+2) * 2^-24 * sum|terms|",
     "model ConvModel.convolve tied to the C++ by exact (bitwise) comparison of every output on this run's cases; memory management of convolve is not modelled",
+    "the executed model is the loop-nest form ConvModel.convolve_rows (equal to ConvModel.convolve on every well-formed table: theorem C14_loop_nest_is_cellwise); the driver runs both forms "
+    "and insists on bitwise equal coefficients on every table of at most 2000 coefficients",
+    "on the size classes (tables of up to 1.5*10^5 new coefficients) every coefficient is compared bitwise with the model, but the exact integral is evaluated only at sampled points "
+    "(aimed at chosen coefficient positions, and at the disagreeing positions after any bitwise disagreement)",
 ]
 TRUSTED_EXTRA = ["tools/props/conv_oracle.py: exact piecewise-polynomial convolution integral in Python fractions (cross-checked at start of every run against the closed forms proved in Properties_C14.v)"]
 
@@ -30,7 +34,13 @@ CORRESPONDENCE = "ConvModel.convolve vs splinetable::convolve / splinetable_conv
 RULE = ("convolutions of tables of 1..4 dims (order 0..5 in the convolved dimension, 0..3 elsewhere; uniform / irregular / integer / dyadic strictly increasing knots from the "
         "minimal count 2*order+2) with kernels of 2..6 strictly increasing knots (symmetric, asymmetric, grid-aligned = coinciding pairwise sums, narrower / wider than the knot "
         "spacing, wider than the whole table), any dimension index, both entry points, both branches of the lower-extent rule; evaluation points: interior, both margins, "
-        "knots and their float neighbours, last knot. non-trivial = kernel not the centred unit box on a uniform grid with constant coefficients; distinct by (orders, knots, kernel, dim, coefficient hash)")
+        "knots and their float neighbours, last knot. Size classes (round 3): 'round-block' = the product S of the axis lengths behind the convolved dimension is m*b, "
+        "b in {16,64,512,672,1024,4096}, m 1..4, and S+1, S-1; 'cache-block' = S is m*tile (and +-1) with tile = max(16, floor(C/N) rounded down to a multiple of 16), "
+        "C in {2048,4096,8192,16384} floats and N the length of the convolved axis in {order+1,2,4,8,12,16,..}; 'large' = 10^4..6*10^4 coefficients with the convolved "
+        "dimension first / in the middle / last; 'minimal' = every axis of length exactly order+1; kernels with 2 and with 6 knots forced on each class. These tables "
+        "(up to 1.5*10^5 new coefficients) are compared bitwise with the model everywhere; the exact integral is sampled at points aimed at chosen coefficient positions "
+        "(first / last trailing position, block boundaries, random) and, after any bitwise disagreement, at the disagreeing positions. "
+        "non-trivial = kernel not the centred unit box on a uniform grid with constant coefficients; distinct by (orders, knots, kernel, dim, coefficient hash)")
 
 KIND_KERNEL = ["symmetric", "symmetric", "asymmetric", "asymmetric", "aligned", "aligned", "narrow", "wide", "wide", "huge", "positive", "negative"]
 CLASSIFY_CAP = 240
@@ -41,6 +51,8 @@ class Case:
         self.t, self.dim, self.kernel, self.ext, self.via_c, self.exact, self.kind = table, dim, kernel, ext, via_c, exact, kind
         self.points = points or []
         self.qc_rows = None
+        self.cls = "regular"          # size class (see RULE): regular | round-block | cache-block | large | minimal
+        self.block = None             # (S, b, m, offset) for the block classes
     def lines(self, cid):
         out = self.t.lines()
         if self.ext:
@@ -53,13 +65,15 @@ class Case:
     def to_json(self):
         return {"table": self.t.to_json(), "dim": self.dim, "kernel": [hexd(x) for x in self.kernel], "kernel_float": self.kernel,
                 "ext": [hexd(x) for x in self.ext] if self.ext else None, "via_c": self.via_c, "exact": self.exact,
-                "points": [[hexd(x) for x in xs] for xs in self.points], "kind": self.kind}
+                "points": [[hexd(x) for x in xs] for xs in self.points], "kind": self.kind, "cls": self.cls, "block": self.block}
     @staticmethod
     def from_json(p):
         tj = p["table"]
         t = Table(tj["orders"], [[dfrom(int(h, 16)) for h in k] for k in tj["knots"]], [ffrom(int(h, 16)) for h in tj["coefs"]], dfrom(int(tj["pad"], 16)))
-        return Case(t, p["dim"], [dfrom(int(h, 16)) for h in p["kernel"]], [dfrom(int(h, 16)) for h in p["ext"]] if p.get("ext") else None,
-                    p.get("via_c", False), p.get("exact", False), [[dfrom(int(h, 16)) for h in xs] for xs in p.get("points", [])], p.get("kind", ""))
+        c = Case(t, p["dim"], [dfrom(int(h, 16)) for h in p["kernel"]], [dfrom(int(h, 16)) for h in p["ext"]] if p.get("ext") else None,
+                 p.get("via_c", False), p.get("exact", False), [[dfrom(int(h, 16)) for h in xs] for xs in p.get("points", [])], p.get("kind", ""))
+        c.cls, c.block = p.get("cls", "regular"), p.get("block")
+        return c
     def key(self):
         return hashlib.sha256(json.dumps([self.t.orders, [[hexd(x) for x in k] for k in self.t.knots], [hexd(x) for x in self.kernel], self.dim,
                                           [hexf(c) for c in self.t.coefs]]).encode()).hexdigest()
@@ -68,7 +82,10 @@ class Case:
         uniform = all(abs((k[i + 1] - k[i]) - (k[1] - k[0])) < 1e-12 for i in range(len(k) - 1))
         return not (uniform and len(self.kernel) == 2 and self.kernel[0] == -self.kernel[1] and len(set(self.t.coefs)) == 1)
     def describe(self):
-        return "%s dim=%d kernel(%s)=%s%s" % (self.t.describe(), self.dim, self.kind, ["%.6g" % x for x in self.kernel], " via C" if self.via_c else "")
+        extra = ""
+        if self.cls != "regular":
+            extra = " [%s: naxes %s%s]" % (self.cls, self.t.naxes, (", trailing block S=%d = %d*%d%+d" % tuple(self.block)) if self.block else "")
+        return "%s dim=%d kernel(%s)=%s%s%s" % (self.t.describe(), self.dim, self.kind, ["%.6g" % x for x in self.kernel], " via C" if self.via_c else "", extra)
 
 def strictly_increasing(ks):
     return all(a < b for a, b in zip(ks, ks[1:]))
@@ -218,6 +235,228 @@ def gen_case(rng, exact=False, force_order=None, force_n=None):
     c = Case(t, dim, kernel, ext, via_c=rng.chance(0.3), exact=exact, kind=kind)
     c.points = gen_points(rng, c, 6 if not exact else 3)
     return c
+
+# ------------------------------------------------------------------------------------------------
+# size classes (round 3): tables whose shape sits on round numbers, large tables, minimal axes. The model (loop-nest form, linear in
+# the array size) and the code are compared bitwise on every coefficient; the exact integral is sampled at aimed points.
+ROUND_BLOCKS = [16, 64, 512, 672, 1024, 4096]
+CACHE_SIZES = [2048, 4096, 8192, 16384]            # floats: 8..64 KiB
+MAX_OLD, MAX_NEW = 70000, 150000
+BIG_KERNELS = ["symmetric", "asymmetric", "aligned", "wide", "positive", "negative"]
+
+def cache_tile(C, N):
+    return max(16, (C // N) // 16 * 16)
+
+def prime_factors(n):
+    out, p = [], 2
+    while p * p <= n:
+        while n % p == 0:
+            out.append(p); n //= p
+        p += 1
+    if n > 1:
+        out.append(n)
+    return out
+
+def split_product(rng, S, nparts):
+    """S as a product of at most nparts factors >= 2 (fewer when S has too few prime factors; [S] itself for a prime)"""
+    pf = prime_factors(S)
+    rng.shuffle(pf)
+    nparts = max(1, min(nparts, len(pf)))
+    bins = [1] * nparts
+    for i, p in enumerate(pf):
+        if i < nparts:
+            bins[i] *= p
+        else:
+            # keep the factors comparable: multiply into the smallest bin most of the time
+            j = min(range(nparts), key=lambda q: bins[q]) if rng.chance(0.7) else rng.below(nparts)
+            bins[j] *= p
+    rng.shuffle(bins)
+    return bins
+
+def knots_for_axis(rng, order, naxes, strict=True):
+    extra = naxes - order - 1
+    assert extra >= 0
+    style = rng.choice(["uniform", "irregular", "irregular", "integer", "dyadic"])
+    if style == "dyadic":
+        return gen_dyadic_knots(rng, order, extra)
+    scale = 10.0 ** rng.rint(-2, 2)
+    ks = gen_knots(rng, order, extra, style, scale, (rng.unit() * 20 - 10) * scale)
+    if not strictly_increasing(ks):
+        ks = gen_dyadic_knots(rng, order, extra)
+    return ks
+
+def new_axis_length(N, order, n):
+    return (N + order + 1) * n - (order + n - 1) - 1
+
+def aimed_point(rng, case, pos):
+    """a point at which the new coefficient with multi-index [pos] (convolved axis: index in the NEW basis) contributes: in every
+    dimension a non-empty knot span inside the support of that basis function"""
+    t, d = case.t, case.dim
+    xs = []
+    for e in range(t.ndim):
+        if e == d:
+            k = pairwise_sorted(t.knots[d], case.kernel)
+            o = t.orders[d] + len(case.kernel) - 1
+        else:
+            k, o = t.knots[e], t.orders[e]
+        j = pos[e]
+        spans = [c for c in range(j, j + o + 1) if k[c] < k[c + 1]]
+        if not spans:
+            return None
+        c = rng.choice(spans)
+        x = k[c] + (k[c + 1] - k[c]) * (0.1 + 0.8 * rng.unit())
+        if not (k[c] < x < k[c + 1]):
+            return None
+        xs.append(x)
+    return xs
+
+def new_shape(case):
+    sh = list(case.t.naxes)
+    sh[case.dim] = new_axis_length(case.t.naxes[case.dim], case.t.orders[case.dim], len(case.kernel))
+    return sh
+
+def unflatten(p, shape):
+    idx = []
+    for n in reversed(shape):
+        idx.append(p % n); p //= n
+    return list(reversed(idx))
+
+def aimed_points(rng, case, npts):
+    """points aimed at chosen positions of the new coefficient array: first and last trailing position, the last few, the
+    neighbourhoods of multiples of 16/64/512 counted along the trailing block, random ones; the leading and convolved indices random"""
+    sh = new_shape(case)
+    d = case.dim
+    S = 1
+    for n in sh[d + 1:]:
+        S *= n
+    S1 = 1
+    for n in sh[:d]:
+        S1 *= n
+    ks = [S - 1, 0, S - 1 - rng.below(min(S, 16)), S // 2]
+    for b in (16, 64, 512):
+        if S > b:
+            q = rng.rint(1, S // b)
+            ks += [q * b - 1, min(S - 1, q * b)]
+    while len(ks) < npts:
+        ks.append(rng.below(S))
+    rng.shuffle(ks)
+    ks = [S - 1] + ks                   # the last trailing position is always sampled
+    pts = []
+    for k in ks:
+        if len(pts) >= npts:
+            break
+        pos = unflatten(rng.below(S1), sh[:d]) + [rng.below(sh[d])] + unflatten(k, sh[d + 1:])
+        xs = aimed_point(rng, case, pos)
+        if xs is not None:
+            pts.append(xs)
+    return pts
+
+def finish_big_case(rng, orders, knots, dim, n, cls, block=None, coef_style=None):
+    nco = 1
+    for k, o in zip(knots, orders):
+        nco *= len(k) - o - 1
+    cs = coef_style or rng.choice(["rand", "rand", "posneg", "ones"])
+    coefs = [gen_coef(rng, cs) for _ in range(nco)]
+    t = Table(orders, knots, coefs, rng.choice([math.nan, 1e300, 0.0]))
+    kind = rng.choice(BIG_KERNELS)
+    kernel = gen_kernel(rng, knots[dim], n, kind, dyadic=rng.chance(0.3))
+    ext = None
+    if rng.chance(0.3):
+        ext = []
+        for k, o in zip(knots, orders):
+            ext += [k[0] if rng.chance(0.5) else k[o], k[len(k) - o - 1]]
+    c = Case(t, dim, kernel, ext, via_c=rng.chance(0.3), exact=False, kind=kind)
+    c.cls, c.block = cls, block
+    c.points = aimed_points(rng, c, 8) + gen_points(rng, c, 2)
+    return c
+
+def gen_block_case(rng, cls, b=None, C=None, offset=0, force_n=None):
+    """the product S of the axis lengths behind the convolved dimension is m*b + offset (b a round number, or the cache-derived tile
+    for the length N of the convolved axis), factored into 1..3 trailing axes; the convolved dimension first or in the middle"""
+    for _ in range(200):
+        o = rng.choice([0, 0, 1, 1, 2, 3, 3, 4, 5])
+        N = rng.choice([o + 1, 2, 4, 8, 12, 16, rng.rint(2, 20)])
+        if N < o + 1:
+            continue
+        if cls == "cache-block":
+            b = cache_tile(C, N)
+        n = force_n if force_n is not None else rng.choice([2, 2, 3, 4, 6])
+        N2 = new_axis_length(N, o, n)
+        lead = rng.choice([0, 0, 1])                   # number of dimensions in front of the convolved one
+        s1 = rng.choice([2, 3]) if lead else 1
+        mmax = min(MAX_OLD // (s1 * N * b), MAX_NEW // (s1 * N2 * b))
+        if mmax < 1:
+            continue
+        m = rng.rint(1, min(4, mmax))
+        S = m * b + offset
+        if S < 2:
+            continue
+        parts = split_product(rng, S, min(rng.choice([1, 2, 2, 3, 3]), 3 - lead))
+        orders, knots = [], []
+        if lead:
+            ol = rng.rint(0, s1 - 1)
+            orders.append(ol); knots.append(knots_for_axis(rng, ol, s1))
+        dim = len(orders)
+        orders.append(o); knots.append(knots_for_axis(rng, o, N))
+        for f in parts:
+            oe = rng.rint(0, min(3, f - 1))
+            orders.append(oe); knots.append(knots_for_axis(rng, oe, f))
+        return finish_big_case(rng, orders, knots, dim, n, cls, [S, b, m, offset])
+    raise RuntimeError("gen_block_case: no shape found")
+
+def gen_large_case(rng, where, force_n=None):
+    """10^4..6*10^4 coefficients, the convolved dimension first / in the middle / last"""
+    for _ in range(500):
+        ndim = rng.choice([2, 3, 3, 4]) if where != "middle" else rng.choice([3, 3, 4])
+        dim = 0 if where == "first" else ndim - 1 if where == "last" else rng.rint(1, ndim - 2)
+        total = rng.rint(10000, 60000)
+        base = total ** (1.0 / ndim)
+        orders = [rng.rint(0, 3) for _ in range(ndim)]
+        orders[dim] = rng.rint(0, 5)
+        lens = [max(o + 1, int(round(base * math.exp(rng.unit() * 1.2 - 0.6)))) for o in orders]
+        lens[dim] = max(orders[dim] + 1, min(lens[dim], 40))
+        nco = 1
+        for l in lens:
+            nco *= l
+        if not (8000 <= nco <= MAX_OLD):
+            continue
+        allowed = [n for n in range(2, 7) if nco // lens[dim] * new_axis_length(lens[dim], orders[dim], n) <= MAX_NEW]
+        if not allowed:
+            continue
+        n = force_n if force_n in allowed else rng.choice(allowed)
+        knots = [knots_for_axis(rng, o, l) for o, l in zip(orders, lens)]
+        return finish_big_case(rng, orders, knots, dim, n, "large")
+    raise RuntimeError("gen_large_case: no shape found")
+
+def gen_minimal_case(rng, force_n=None):
+    """every axis of length exactly order+1 (the minimal knot count 2*order+2)"""
+    ndim = rng.choice([1, 2, 2, 3, 3, 4])
+    dim = rng.below(ndim)
+    orders = [rng.rint(0, 3) for _ in range(ndim)]
+    orders[dim] = rng.rint(0, 5)
+    n = force_n if force_n is not None else rng.choice([2, 3, 4, 5, 6])
+    knots = [knots_for_axis(rng, o, o + 1) for o in orders]
+    c = finish_big_case(rng, orders, knots, dim, n, "minimal")
+    c.points = aimed_points(rng, c, 4) + gen_points(rng, c, 4)
+    return c
+
+def gen_size_classes(rng, tier):
+    """the cases of the size classes for one run"""
+    out = []
+    reps = 1 if tier == "quick" else 12
+    for r in range(reps):
+        for b in ROUND_BLOCKS:
+            for off in (0, 1, -1):
+                out.append(gen_block_case(rng, "round-block", b=b, offset=off, force_n=(2 if (r + off) % 3 == 0 else 6 if (r + off) % 3 == 1 and b <= 672 else None)))
+        for C in CACHE_SIZES:
+            for off in (0, 0, 0, 1, -1):
+                out.append(gen_block_case(rng, "cache-block", C=C, offset=off))
+        for where in ("first", "middle", "last"):
+            out.append(gen_large_case(rng, where, force_n=2))
+            out.append(gen_large_case(rng, where, force_n=rng.choice([6, None])))
+        for n in (2, 6, None, None, 2, 6, None, None):
+            out.append(gen_minimal_case(rng, force_n=n))
+    return out
 
 # ================================================================================================
 # the property's statement, evaluated directly on the implementation's output
@@ -567,9 +806,22 @@ def compare_case(cid, impl, mod):
             diffs.append((k, v[:80], "<no model key>"))
         elif mo[k] != v and not nanlist_equal(v, mo[k]):
             a, b = v.split(","), mo[k].split(",")
-            idx = next((i for i, (x, y) in enumerate(zip(a, b)) if x != y), -1)
-            diffs.append((k, "len %d, first difference at %d: %s" % (len(a), idx, a[idx] if idx >= 0 else ""), "len %d: %s" % (len(b), b[idx] if idx >= 0 else "")))
+            where = [i for i, (x, y) in enumerate(zip(a, b)) if x != y]
+            idx = where[0] if where else -1
+            diffs.append((k, "len %d, %d entries differ, first at %d: %s, last at %d" % (len(a), len(where), idx, a[idx] if idx >= 0 else "", where[-1] if where else -1),
+                          "len %d: %s" % (len(b), b[idx] if idx >= 0 else "")))
     return diffs
+
+def coef_diff_positions(io, mo, cap=6):
+    """positions of the new coefficient array at which implementation and model differ: first, last and some in between"""
+    if not io or not mo or "coef" not in io or "coef" not in mo:
+        return []
+    a, b = io["coef"].split(","), mo["coef"].split(",")
+    where = [i for i, (x, y) in enumerate(zip(a, b)) if x != y and not nanlist_equal(x, y)]
+    if len(where) <= cap:
+        return where
+    step = (len(where) - 1) / float(cap - 1)
+    return sorted(set(where[int(round(i * step))] for i in range(cap)))
 
 def nanlist_equal(a, b):
     la, lb = a.split(","), b.split(",")
@@ -712,7 +964,9 @@ def analyse(cases, tag, impl, mod, crashes, out, stats, model=True):
         elif v == "algorithm":
             sig2, msg2 = "C14:value:algorithm@order%d,n%d" % (o, n), msg + " — the algorithm at Qc does not reproduce the integral either"
         elif v == "impl!=model":
-            sig2, msg2 = "C14:value:inaccurate@order%d,n%d" % (o, n), msg + " — and the implementation differs from the model"
+            dd = [x for x in compare_case(cid, impl, mod) if x[0] == "coef"] if mod else []
+            sig2, msg2 = "C14:value:inaccurate@order%d,n%d" % (o, n), msg + " — and the implementation differs from the model" + (
+                " (new coefficient array, shape %s: implementation %s; model %s)" % (new_shape(c), dd[0][1], dd[0][2]) if dd else "")
         else:
             sig2, msg2 = "C14:value:inaccurate@order%d,n%d" % (o, n), msg + " — (could not be classified)"
         c1 = Case(c.t, c.dim, c.kernel, c.ext, c.via_c, False, [xs], c.kind)
@@ -725,6 +979,37 @@ def analyse(cases, tag, impl, mod, crashes, out, stats, model=True):
         out.violation("C14:crash" if detail != "timeout" else "C14:hang", "implementation crashed or hung in convolve/evaluation: " + detail.strip().split("\n")[-1][:200], p)
         nviol += 1
     return ndiff, nviol
+
+def directed_points(cases, tag, impl, mod, out, stats, rng):
+    """after a bitwise disagreement on the coefficients of a case: ask the property's oracle AT the disagreeing positions (points
+    aimed at the first / last / some intermediate differing coefficients). Turns a correspondence break into a concrete failing
+    input whenever the difference is visible in the values. Returns 0 (the disagreement itself is already counted)."""
+    todo = []
+    for cid, _ in stats.get("diff_cases", []):
+        if not cid.startswith(tag) or not cid[len(tag):].isdigit():
+            continue
+        c = cases[int(cid[len(tag):])]
+        where = coef_diff_positions(impl.get(cid), mod.get(cid))
+        pts = []
+        for p in where:
+            for _ in range(3):
+                xs = aimed_point(rng, c, unflatten(p, new_shape(c)))
+                if xs is not None:
+                    pts.append(xs); break
+        if pts:
+            c2 = Case(c.t, c.dim, c.kernel, c.ext, c.via_c, False, pts, c.kind)
+            c2.cls, c2.block = c.cls, c.block
+            todo.append(c2)
+        if len(todo) >= 24:
+            break
+    if todo:
+        atag = tag + "aim"
+        impl2, mod2, crashes2 = execute(todo, atag)
+        keep = stats.get("diff_cases", [])
+        analyse(todo, atag, impl2, mod2, crashes2, out, stats)
+        stats["diff_cases"] = keep            # the same disagreements: not counted twice
+        stats["directed_oracle_points"] = stats.get("directed_oracle_points", 0) + sum(len(c.points) for c in todo)
+    return 0
 
 def load_corpus():
     d = os.path.join(VERIF, "corpus", "C14")
@@ -765,7 +1050,8 @@ def run(info, out):
     corpus = load_corpus()
     if corpus:
         impl, mod, crashes = execute(corpus, "corpus")
-        analyse(corpus, "corpus", impl, mod, crashes, out, stats)
+        stats["corpus_disagreements"] = analyse(corpus, "corpus", impl, mod, crashes, out, stats)[0]
+        directed_points(corpus, "corpus", impl, mod, out, stats, rng.fork("aim-corpus"))
         stats["corpus_cases"] = len(corpus)
         total_eval += sum(1 + len(c.points) for c in corpus)
     cases = []
@@ -785,30 +1071,67 @@ def run(info, out):
     allc = cases + ex_cases
     impl, mod, crashes = execute(allc, "main")
     ndiff, nviol = analyse(allc, "main", impl, mod, crashes, out, stats)
+    ndiff += stats.get("corpus_disagreements", 0)
     total_eval += sum(1 + len(c.points) for c in allc)
+    ndiff += directed_points(allc, "main", impl, mod, out, stats, rng.fork("aim-main"))
+    # the size classes (round-number trailing blocks, large tables, minimal axes): bitwise everywhere, the exact integral sampled
+    big = gen_size_classes(rng.fork("size-classes"), tier)
+    BATCH = 48
+    for b0 in range(0, len(big), BATCH):
+        part = big[b0:b0 + BATCH]
+        tag = "big%d_" % (b0 // BATCH)
+        impl_b, mod_b, crashes_b = execute(part, tag)
+        nd_b, nv_b = analyse(part, tag, impl_b, mod_b, crashes_b, out, stats)
+        nd_b += directed_points(part, tag, impl_b, mod_b, out, stats, rng.fork("aim-" + tag))
+        for i, c in enumerate(part):          # keep what the evidence samples need, drop the bulk
+            if b0 == 0 and i < 2:
+                impl["%s%d" % (tag, i)] = impl_b.get("%s%d" % (tag, i), {})
+        ndiff += nd_b
+        nviol += nv_b
+        total_eval += sum(1 + len(c.points) for c in part)
+    stats["diff_cases_main"] = [x for x in stats.get("diff_cases", []) if x[0].startswith("main")]
     searched = 0
     known = open_signatures("C14")
     fresh = [v for v in out.violations if v[0] not in known]
     if (ndiff or not info["proof_ok"]) and not fresh:
         rng2 = Rng(seed + 7919).fork("C14-search")
         more = [gen_case(rng2) for _ in range(10 * nconv if tier == "quick" else 2 * nconv)]
+        for r in range(4):
+            more += gen_size_classes(rng2.fork("size-classes-%d" % r), "quick")
         impl2, _, crashes2 = execute(more, "search", model=False)
         analyse(more, "search", impl2, {}, crashes2, out, stats, model=False)
         searched = sum(1 + len(c.points) for c in more)
         fresh = [v for v in out.violations if v[0] not in known]
         if not fresh and ndiff:
             cid, diffs = stats["diff_cases"][0]
-            c = allc[int(cid[4:])]
-            p = payload_of(c, cid, impl, mod, {"broken": "correspondence " + CORRESPONDENCE, "disagreements": diffs, "no_failing_input_found": True})
+            if cid.startswith("main") and cid[4:].isdigit():
+                c = allc[int(cid[4:])]
+                p = payload_of(c, cid, impl, mod, {"broken": "correspondence " + CORRESPONDENCE, "disagreements": diffs, "no_failing_input_found": True})
+            else:
+                p = {"broken": "correspondence " + CORRESPONDENCE, "disagreements": diffs, "no_failing_input_found": True, "case_id": cid}
             out.violation("C14:correspondence:" + diffs[0][0].split(".")[0], "model and implementation disagree on %s; the property oracle found no failing input" % diffs[0][0], p)
     elif ndiff and fresh:
         out.notes.append("model and implementation disagree on %d cases: %s" % (ndiff, stats["diff_cases"][:2]))
-    distinct = set(c.key() for c in allc if c.nontrivial())
-    dist = {"order_in_convolved_dim": {}, "kernel_knots": {}, "kernel_kind": {}, "ndim": {}, "dim": {}, "entry": {}, "coinciding_sums": 0, "lower_extent_partial": 0}
-    for c in allc:
+    everything = allc + big
+    distinct = set(c.key() for c in everything if c.nontrivial())
+    dist = {"order_in_convolved_dim": {}, "kernel_knots": {}, "kernel_kind": {}, "ndim": {}, "dim": {}, "entry": {}, "coinciding_sums": 0, "lower_extent_partial": 0,
+            "size_class": {}, "size_class_by_kernel_knots": {}, "position_of_convolved_dim": {}, "trailing_block": {}, "old_coefficients": {}, "all_axes_minimal": 0,
+            "convolved_axis_minimal": 0}
+    for c in everything:
+        nco = len(c.t.coefs)
         for k, v in (("order_in_convolved_dim", c.t.orders[c.dim]), ("kernel_knots", len(c.kernel)), ("kernel_kind", c.kind), ("ndim", c.t.ndim), ("dim", c.dim),
-                     ("entry", "C wrapper" if c.via_c else "member")):
+                     ("entry", "C wrapper" if c.via_c else "member"), ("size_class", c.cls), ("size_class_by_kernel_knots", "%s/n%d" % (c.cls, len(c.kernel))),
+                     ("position_of_convolved_dim", "only" if c.t.ndim == 1 else "first" if c.dim == 0 else "last" if c.dim == c.t.ndim - 1 else "middle"),
+                     ("old_coefficients", "<100" if nco < 100 else "<1000" if nco < 1000 else "<10000" if nco < 10000 else "<30000" if nco < 30000 else ">=30000")):
             dist[k][str(v)] = dist[k].get(str(v), 0) + 1
+        if c.block:
+            S, b, m, off = c.block
+            key = "%s:%d*m%+d" % (c.cls, b, off) if c.cls == "round-block" else "%s:tile(C/N)*m%+d" % (c.cls, off)
+            dist["trailing_block"][key] = dist["trailing_block"].get(key, 0) + 1
+        if all(na == o + 1 for na, o in zip(c.t.naxes, c.t.orders)):
+            dist["all_axes_minimal"] += 1
+        if c.t.naxes[c.dim] == c.t.orders[c.dim] + 1:
+            dist["convolved_axis_minimal"] += 1
         rho = pairwise_sorted(c.t.knots[c.dim], c.kernel)
         if len(set(rho)) < len(rho):
             dist["coinciding_sums"] += 1
@@ -816,6 +1139,8 @@ def run(info, out):
             dist["lower_extent_partial"] += 1
     samples = [{"case": c.describe(), "impl": {k: impl.get("main%d" % i, {}).get(k, "")[:100] for k in ("order", "nknots", "naxes", "strides")},
                 "point0": impl.get("main%d.p0" % i)} for i, c in list(enumerate(allc))[:3]]
+    samples += [{"case": c.describe(), "impl": {k: impl.get("big0_%d" % i, {}).get(k, "")[:100] for k in ("order", "nknots", "naxes", "strides", "ncoef")},
+                 "point0": None} for i, c in list(enumerate(big))[:2]]
     for s in samples:
         if s["point0"]:
             s["point0"] = {k: v for k, v in s["point0"].items() if not k.startswith("_")}
@@ -831,5 +1156,7 @@ def run(info, out):
                                                    "by_order_n_kind": stats.get("rounding_cancellation_by_order_n", {}),
                                                    "failing_cases_beyond_classification_cap": stats.get("inaccurate_cases_beyond_classification_cap", 0)},
            "skipped_points_C01_D17": stats.get("skipped_C01_D17_points", 0),
+           "directed_oracle_points_after_disagreement": stats.get("directed_oracle_points", 0),
+           "size_class_cases": len(big),
            "input_distribution": dist, "search_volume_after_break": searched, "corpus_cases": stats.get("corpus_cases", 0)}
     return cov
